@@ -2,12 +2,14 @@ import DnsVerif.Lemmas.Text
 import DnsVerif.Lemmas.ApiMachines
 import DnsVerif.Lemmas.NameSound
 import DnsVerif.Props.C06
+import DnsVerif.Lemmas.ExtraC
 
 /-! # C13 — domain-name text form, equality, hashing and limits are coherent
 
 Model: `ciEq` (Prim.lean) for `impl PartialEq/Hash for Label` as repaired (ASCII case only), `display`,
 `Name.len`, `parseName`, `nameStep` (Model/Api.lean) for `Display`, `len()`, `FromStr`, `append_label`,
-`D.name` for the wire decoder. Strings are their UTF-8 octets. -/
+`D.name` for the wire decoder, `Enc.lookup` / `encName` (Model/Enc.lean) for the compression table and the name writer
+(`lookup_congr`, `encName_congr`: equal names cannot be told apart by the encoder). Strings are their UTF-8 octets. -/
 
 namespace C13
 
@@ -31,6 +33,36 @@ theorem compression_preserves_name {S : Nat → Prop} {e e' : Enc} {n : Name} (h
       ∀ buf', Agree (ext S e.out.length e'.out.length) e'.out buf' → NameAt buf' true e.out.length n' hops e'.out.length := by
   obtain ⟨_, _, _, _, n', hops, hlow, hh, hat⟩ := encName_spec n S e e' hwf (_root_.reachable_inv hr) h
   exact ⟨n', hops, C06.lower_eq_ciEq hlow, hh, hat⟩
+
+/-- **equal names are interchangeable compression targets**: the compression-table lookup gives the same answer for
+equal keys (and the table compares its stored keys with the same equality) … -/
+theorem lookup_congr {a b : Name} (h : ciEq a b = true) (e : Enc) : e.lookup a = e.lookup b := ExtraC.lookup_congr h e
+
+/-- … every suffix of equal names is equal … -/
+theorem eq_drop {a b : Name} (h : ciEq a b = true) (k : Nat) : ciEq (a.drop k) (b.drop k) = true := ExtraC.ciEq_drop h k
+
+/-- … so every suffix lookup the encoder performs gives the same answer -/
+theorem lookup_suffix_congr {a b : Name} (h : ciEq a b = true) (e : Enc) (k : Nat) :
+    e.lookup (a.drop k) = e.lookup (b.drop k) := ExtraC.lookup_drop_congr h e k
+
+/-- … and the whole name writer cannot tell equal names apart: from the same encoder state, writing `a` or an equal
+`b` fails with the same error, or succeeds with the same output up to the ASCII case of the label octets (the
+length and pointer octets are fixed by `lowerB`, so the same pointer decisions at the same positions) and the same
+compression table up to the case of its keys (`ExtraC.encView`) -/
+theorem encName_congr {a b : Name} (h : ciEq a b = true) (e : Enc) :
+    (encName e a).map ExtraC.encView = (encName e b).map ExtraC.encView := ExtraC.encName_congr h e
+
+/-- in particular the same error or the same number of octets -/
+theorem encName_congr_length {a b : Name} (h : ciEq a b = true) (e : Enc) :
+    (encName e a).map (fun e' => e'.out.length) = (encName e b).map (fun e' => e'.out.length) :=
+  ExtraC.encName_congr_length h e
+
+/-! non-vacuity: `WWW.a` finds the entry stored for `www.a`; a table hit gives a pointer for both spellings -/
+example : ciEq [[87, 87, 87], [97]] [[119, 119, 119], [97]] = true := by decide
+example : ({ out := List.replicate 20 0, idx := [([[119, 119, 119], [97]], 12, 0)] } : Enc).lookup [[87, 87, 87], [97]] =
+    some (12, 0) := by decide
+example : (encName { out := List.replicate 20 0, idx := [([[119, 119, 119], [97]], 12, 0)] } [[87, 87, 87], [97]]).map
+    (fun e' => e'.out.length) = .ok 22 := rfl
 
 /-- text round trip: parsing what `Display` printed gives back the name, for every name whose labels
 contain no dot (the root included) -/
